@@ -223,6 +223,36 @@ def run_stress(j):
     return {"kind": "stress", "parses": [p for r in results for p in r], "hung": any(th.is_alive() for th in ths)}
 
 
+def record_keys():
+    """Wrap the memoised helpers so that every call records (function, arguments); parse each text once in THIS
+    fresh interpreter (one text per interpreter is the caller's business) and report the calls in order."""
+    calls = []
+
+    def wrap_fn(owner, name):
+        orig = getattr(owner, name, None)
+        if orig is None or not hasattr(orig, "cache_info"):
+            return
+
+        def w(*a, **k):
+            calls.append([name, repr(a)])
+            return orig(*a, **k)
+        w.cache_info = orig.cache_info
+        w.cache_clear = orig.cache_clear
+        setattr(owner, name, w)
+    wrap_fn(chartparse.tick, "note_duration_to_ticks")
+    wrap_fn(chartparse.instrument, "_refined_sustain_tuple")
+    wrap_fn(chartparse.instrument.Note, "is_chord")
+    wrap_fn(chartparse.instrument.NoteTrackIndex, "is_5_note")
+    out = {}
+    for name in job["keys_for"]:
+        del calls[:]
+        d = parse_one(name)
+        out[name] = {"calls": [list(c) for c in calls], "failed": d.startswith("raise:")}
+    return out
+
+
+if job.get("keys_for"):
+    print(json.dumps({"kind": "keys", "keys": record_keys()}))
 if job.get("measure"):
     # dry-run measurement of switch points per text (fresh caches are not required for a count)
     out = {}
